@@ -185,6 +185,18 @@ let run (path : string) =
            | _ -> ()) calc;
        let r = Gauge.rstep m o in
        bump ("op:begin:" ^ cls_of r);
+       (* the hook after fix b2d3331: step 1 (epochs and gauges) fails -> the whole hook is dropped; one of the
+          program steps fails -> only that step is dropped.  Which steps kept their writes (model's view; the
+          diff of the program records and balances below is what ties it to the implementation) *)
+       (match Gauge.begin_steps_ok now benv m with
+        | [s1; s2; s3; s4] ->
+          let due k = L.exists (fun (x : Gauge.ext) -> BinInt.Z.eqb x.Gauge.x_kind (zi k) && x.Gauge.x_active && BinInt.Z.ltb x.Gauge.x_next now) m.Gauge.r_exts in
+          if not s1 then bump "hook:epochs-step-failed:whole-hook-dropped";
+          if s1 && due 0 then bump (if s2 then "hook:locker-step:kept" else "hook:locker-step:rolled-back");
+          if s1 && due 1 then bump (if s3 then "hook:vault-step:kept" else "hook:vault-step:rolled-back");
+          if s1 && due 2 then bump (if s4 then "hook:lend-step:kept" else "hook:lend-step:rolled-back");
+          if s1 && not (s2 && s3 && s4) then bump "hook:some-program-step-rolled-back:others-kept"
+        | _ -> ());
        (match r with
         | Base.Ok (s', dp) ->
           st := s';
@@ -197,7 +209,7 @@ let run (path : string) =
           cmpf "payouts" (S.concat "," ml) (S.concat "," il);
           if ml <> [] then nt := true
         | _ ->
-          (* the hook recovers the panic and drops every write: nothing may have been paid *)
+          (* step 1 failed: the outer wrapper recovers the panic and drops every write: nothing may have been paid *)
           cmpf "payouts" "" (S.concat "," (L.map (fun (d, a, v) -> d ^ ":" ^ a ^ ":" ^ v) !pays)));
        (* predicates on the implementation's before / after records *)
        let igs = L.map snd (L.rev !gs) in
